@@ -28,6 +28,11 @@ pub fn check_snapshot(dest: &SimDest, nops: u32, what: &str) -> Vec<Violation> {
     let img = &img[..(hi - start).min(img.len())];
     let d = decode::decode(img);
     for p in &d.problems {
+        // an entry whose type is still zero is an unused entry, whatever its location field holds (an
+        // entry being published location-first passes through this state)
+        if p.code == "dirent-unused-nonzero" {
+            continue;
+        }
         // in a truncated image every reference must already be satisfiable
         out.push(v("C10", &format!("prefix-{}", p.code), format!("{} ({} bytes present): {}", what, img.len(), p.detail)));
     }
